@@ -43,8 +43,18 @@ pub fn snapshot(base: &Path) -> BTreeMap<String, String> {
                 out.insert(rel, "dir".into());
                 walk(&p, base, out);
             } else {
-                let data = std::fs::read(&p).unwrap_or_default();
-                out.insert(rel, format!("file:{}:{}", data.len(), to_hex(&data[..data.len().min(64)])));
+                let mut data = std::fs::read(&p).unwrap_or_default();
+                // a JSON side file is compared by what it says, not by the order its map happened to be written in
+                if rel.ends_with(".json") {
+                    if let Ok(Value::Object(m)) = serde_json::from_slice::<Value>(&data) {
+                        let sorted: BTreeMap<String, Value> = m.into_iter().collect();
+                        data = serde_json::to_vec(&sorted).unwrap_or(data);
+                    }
+                }
+                let mut h = <s3s::crypto::Md5 as s3s::crypto::Checksum>::new();
+                s3s::crypto::Checksum::update(&mut h, &data);
+                let digest = s3s::crypto::Checksum::finalize(h);
+                out.insert(rel, format!("file:{}:{}:{}", data.len(), to_hex(&data[..data.len().min(64)]), to_hex(digest.as_ref())));
             }
         }
     }
@@ -68,8 +78,11 @@ fn body_stream(op: &Value) -> StreamingBlob {
     // frames; an optional fault after k frames
     let data = hex(&op["body"]);
     let fsz = op["frame"].as_u64().unwrap_or(4096).max(1) as usize;
-    let mut frames: Vec<Result<Bytes, std::io::Error>> =
-        data.chunks(fsz).map(|c| Ok(Bytes::copy_from_slice(c))).collect();
+    // "frames": explicit frame list (hex, may contain empty frames); otherwise the body is cut into frames of `frame` bytes
+    let mut frames: Vec<Result<Bytes, std::io::Error>> = match op["frames"].as_array() {
+        Some(fs) => fs.iter().map(|f| Ok(Bytes::from(hex(f)))).collect(),
+        None => data.chunks(fsz).map(|c| Ok(Bytes::copy_from_slice(c))).collect(),
+    };
     if let Some(k) = op["fail_after"].as_u64() {
         frames.truncate(k as usize);
         frames.push(Err(std::io::Error::other("injected body error")));
@@ -244,6 +257,19 @@ pub async fn run_op(fs: &FileSystem, op: &Value, uploads: &mut HashMap<String, S
                 let o = call!(fs.upload_part(req(b.build().unwrap(), cred)));
                 format!("ok:{}", o.e_tag.unwrap_or_default())
             }
+            "mpu_part_copy" => {
+                let id = uploads.get(op["alias"].as_str().unwrap()).cloned().unwrap_or_else(|| "00000000-0000-0000-0000-000000000000".into());
+                let src = CopySource::Bucket { bucket: s("src_bucket").unwrap().into(), key: s("src_key").unwrap().into(), version_id: None };
+                let mut b = UploadPartCopyInput::builder();
+                b.set_bucket(bucket);
+                b.set_key(key);
+                b.set_upload_id(id);
+                b.set_part_number(op["part"].as_i64().unwrap() as i32);
+                b.set_copy_source(src);
+                b.set_copy_source_range(op["range"].as_str().map(|x| x.to_owned()));
+                let o = call!(fs.upload_part_copy(req(b.build().unwrap(), cred)));
+                format!("ok:{}", o.copy_part_result.and_then(|r| r.e_tag).unwrap_or_default())
+            }
             "mpu_complete" => {
                 let id = uploads.get(op["alias"].as_str().unwrap()).cloned().unwrap_or_else(|| "00000000-0000-0000-0000-000000000000".into());
                 let parts: Vec<CompletedPart> = op["parts"]
@@ -332,7 +358,16 @@ pub fn run(case: &Value) -> Value {
         }
     });
     let tree: Vec<String> = snapshot(&sb.base).into_iter().map(|(k, v)| format!("{k}={v}")).collect();
-    json!({"outs": outs, "diffs": diffs, "tree": tree})
+    // the bookkeeping files of the root directory with their whole content, and which upload id each alias stands for
+    let mut side = serde_json::Map::new();
+    if let Ok(rd) = std::fs::read_dir(&sb.root) {
+        for e in rd.flatten() {
+            if e.path().is_file() {
+                side.insert(e.file_name().to_string_lossy().into_owned(), json!(to_hex(&std::fs::read(e.path()).unwrap_or_default())));
+            }
+        }
+    }
+    json!({"outs": outs, "diffs": diffs, "tree": tree, "side": side, "uploads": uploads})
 }
 
 /// C17: the path resolution itself (hook `__verif_object_path`), relative to the root.
